@@ -603,39 +603,51 @@ func runC04(c *Ctx) {
 					}
 				}
 			}
-			// comparison edges
-			var sameHolder, unheld, absent []core.Edge
-			for _, b := range f.Blocks {
-				for _, in := range b.Instrs {
-					cmp, ok := in.(*ssa.BinOp)
-					if !ok || (cmp.Op != token.EQL && cmp.Op != token.NEQ) {
-						continue
-					}
-					te, fe := core.CondEdges(cmp)
-					eq, ne := te, fe
-					if cmp.Op == token.NEQ {
-						eq, ne = fe, te
-					}
-					_ = ne
-					cx, cy := classifyStored(cmp.X, aliases, entry), classifyStored(cmp.Y, aliases, entry)
-					switch {
-					case (cx == "row.Session" && cy == "self.Session") || (cy == "row.Session" && cx == "self.Session"):
-						sameHolder = append(sameHolder, eq...)
-					case (cx == "row.Session" && cy == `const:""`) || (cy == "row.Session" && cx == `const:""`):
-						unheld = append(unheld, eq...)
-					}
+			// comparison edges, of the function and of the predicates it calls (core.GuardEdges)
+			isRowAlias := func(v ssa.Value) bool {
+				if aliases[v] {
+					return true
 				}
+				a := core.AccessOf(v)
+				return len(a.Fields) == 0 && aliases[a.Root]
 			}
-			for al := range aliases {
-				for _, cmp := range nilCmps(al) {
-					te, fe := core.CondEdges(cmp)
-					if cmp.Op == token.EQL {
-						absent = append(absent, te...)
-					} else {
-						absent = append(absent, fe...)
-					}
+			classify := func(cv core.CmpView) string {
+				if cv.Op != token.EQL && cv.Op != token.NEQ {
+					return ""
 				}
+				if (core.IsNilConst(cv.Y) && isRowAlias(cv.X)) || (core.IsNilConst(cv.X) && isRowAlias(cv.Y)) {
+					return "absent"
+				}
+				cx, cy := classifyStored(cv.X, aliases, entry), classifyStored(cv.Y, aliases, entry)
+				switch {
+				case (cx == "row.Session" && cy == "self.Session") || (cy == "row.Session" && cx == "self.Session"):
+					return "same"
+				case (cx == "row.Session" && cy == `const:""`) || (cy == "row.Session" && cx == `const:""`):
+					return "unheld"
+				}
+				return ""
 			}
+			nSame, nUnheld := 0, 0
+			eqEdge := func(cv core.CmpView) (bool, bool) { return cv.Op == token.EQL, cv.Op == token.NEQ }
+			sameHolder := core.GuardEdges(f, 2, func(cv core.CmpView) (bool, bool) {
+				if classify(cv) == "same" {
+					nSame++
+					return eqEdge(cv)
+				}
+				return false, false
+			})
+			edges := core.GuardEdges(f, 2, func(cv core.CmpView) (bool, bool) {
+				switch classify(cv) {
+				case "same":
+					return eqEdge(cv)
+				case "unheld":
+					nUnheld++
+					return eqEdge(cv)
+				case "absent":
+					return eqEdge(cv)
+				}
+				return false, false
+			})
 			if clears {
 				if core.CutMakesUnreachable(f, nil, sameHolder, ki.instr) && len(sameHolder) > 0 {
 					r.Hold("C04.3.release", construct, pos, "the holder is cleared only below stored holder == requesting session")
@@ -644,8 +656,7 @@ func runC04(c *Ctx) {
 				}
 				continue
 			}
-			edges := append(append(append([]core.Edge{}, sameHolder...), unheld...), absent...)
-			okGuard := len(sameHolder) > 0 && len(unheld) > 0 && core.CutMakesUnreachable(f, nil, edges, ki.instr)
+			okGuard := nSame > 0 && nUnheld > 0 && len(edges) > 0 && core.CutMakesUnreachable(f, nil, edges, ki.instr)
 			okSession := sessionLookupNonNilAt(f, ki.instr.Block())
 			switch {
 			case !okSession:
